@@ -304,6 +304,7 @@ VARIANTS = {
                more=[('best is None', 'cur is None'), ('best.final_measurement', 'cur.final_measurement')]),
     ],
     'C17': [
+        fire('timeit-parent-saved-conditionally', 'pyglove/core/utils/timing.py', 'TimeIt.__enter__', 'self._parent = parent\n    if parent is not None:\n        parent.add(self)', 'if parent is not None:\n        parent.add(self)\n        self._parent = parent', 'C17.b', 'saved-on-every-entry'),
         fire('view-options-merge-into-shallow-copy', 'pyglove/core/views/base.py', 'view_options', 'options = utils.merge([parent_options, kwargs])', 'options = utils.merge_tree(dict(parent_options), kwargs)', 'C17.g', 'view_options'),
         fire('permission-restore-missing', PE, 'permission', 'if outter_perm is None:\n            utils.thread_local_del(_TLS_CODE_RUN_PERMISSION)', 'pass', 'C17.a', 'permission'),
         fire('exit-fn-before-restore', 'pyglove/core/hyper/dynamic_evaluation.py', 'dynamic_evaluate', 'base.set_dynamic_evaluate_fn(old_evaluate_fn, per_thread)\n        if not has_errors and exit_fn is not None:\n            exit_fn()', 'if not has_errors and exit_fn is not None:\n            exit_fn()\n        base.set_dynamic_evaluate_fn(old_evaluate_fn, per_thread)', 'C17.h', 'dynamic_evaluate'),
